@@ -2,6 +2,7 @@
 mod calls;
 mod consts;
 mod generated_consts;
+mod generated_convs;
 mod registry;
 mod defrag;
 mod fuzz;
@@ -134,6 +135,7 @@ fn main() {
         "states-fuzz" => states::cmd_fuzz(&args[2..]),
         "defrag-stream" => defrag::cmd_defrag_stream(&args[2..]),
         "defrag-pause" => defrag::cmd_defrag_pause(&args[2..]),
+        "defrag-hold" => defrag::cmd_defrag_hold(&args[2..]),
         _ => {
             eprintln!("unknown command");
             2
